@@ -348,6 +348,44 @@ def one_case(src, mexe, idx, seed, tier):
     return recipe, problems, {"corr": corr, "corr_bad": corr_bad, "nops": len(ops), "maxdir": max(len(v) for v in dirs.values()), "dx_rows": dx_rows, "dx_bad": dx_bad}
 
 
+def hash_tie(src, seed, n):
+    """the reader's own directory hashes (lib/extfmt.py dirhash: legacy / half_md4 / tea x signed / unsigned char) against
+    debugfs dx_hash, which calls the library's ext2fs_dirhash2 with the filesystem's algorithm, flags and seed"""
+    import extfmt as X
+    env = e2v.tool_env(src)
+    T = lambda p: os.path.join(src, p)
+    img = os.path.join(WORK, "hash_tie.img")
+    rows, bad = 0, []
+    r = e2v.rng(seed, "c10hash")
+    for alg in ("legacy", "half_md4", "tea"):
+        for flag in (1, 2):
+            if os.path.exists(img):
+                os.unlink(img)
+            e2v.sh([T("misc/mke2fs"), "-q", "-F", "-t", "ext4", "-E", "hash_seed=%08x-89ab-cdef-0123-456789abcdef" % r.getrandbits(32), img, "4M"], env=env, timeout=120)
+            e2v.sh([T("debugfs/debugfs"), "-w", "-f", "-", img], input=("ssv def_hash_version %s\nssv flags %d\n" % (alg, flag)).encode(), env=env, timeout=60)
+            sb = X.Fs(img).sb_raw
+            hseed = struct.unpack_from("<4I", sb, 0xEC)
+            names = []
+            while len(names) < n:
+                nm = bytes(r.choice(b"abcXYZ019_.\xc3\xa9\x80\xff\xe2") for _ in range(r.choice([1, 3, 4, 5, 15, 16, 17, 31, 32, 33, 40, 100, 255])))
+                if nm[:1] != b"-" and nm not in names:
+                    names.append(nm)
+            p = subprocess.run([T("debugfs/debugfs"), "-f", "-", img], input=b"".join(b"dx_hash " + nm + b"\n" for nm in names), env=env,
+                               stdout=subprocess.PIPE, stderr=subprocess.DEVNULL, timeout=120)
+            got = re.findall(rb"is (0x[0-9a-f]+) \(minor (0x[0-9a-f]+)\)", p.stdout)
+            if len(got) != len(names):
+                bad.append({"algorithm": alg, "flags": flag, "note": "debugfs answered %d of %d requests" % (len(got), len(names))})
+                continue
+            for nm, (a, b) in zip(names, got):
+                rows += 1
+                mine = X.dirhash({"legacy": 0, "half_md4": 1, "tea": 2}[alg], nm, hseed, flag == 2)
+                if mine != (int(a, 16), int(b, 16)):
+                    bad.append({"algorithm": alg, "flags": flag, "name_hex": nm.hex(), "library": [a.decode(), b.decode()], "reader": ["0x%08x" % mine[0], "0x%08x" % mine[1]]})
+    if os.path.exists(img):
+        os.unlink(img)
+    return rows, bad
+
+
 def run(res, replay=None):
     tier, seed = res.tier, res.seed
     os.makedirs(WORK, exist_ok=True)
@@ -360,7 +398,7 @@ def run(res, replay=None):
         "debugfs write/mkdir/symlink/mknod/ln/unlink/rm/rmdir are the front ends to ext2fs_link/ext2fs_unlink/ext2fs_mkdir; the reference is a Python dict per directory",
     ]
     res.cov["partial"] = ["proved: what link and unlink do to the records of one directory block (tiling kept, exactly one entry added / the first match removed, new record large enough); directory expansion, the htree insert path (dx_link: leaf split, index growth), hashing, mkdir/rmdir link-count bookkeeping and inline directories are validated per operation against the dict reference and by e2fsck, not modelled",
-                          "a kernel-style hash lookup of every name in indexed directories is not part of this check (e2fsck -fn verifies the index)"]
+                          "the hash lookup of indexed directories is modelled (DxSearch.v: dx_search_covers) and audited per directory (dx_audit: every live entry inside the hash range of the leaf the index sends its hash to); the kernel itself is not run"]
     n = 32 if tier == "quick" else 1200
     idxs = [json.load(open(replay))["recipe"]["case_index"]] if replay else list(range(n))
     with concurrent.futures.ThreadPoolExecutor(12) as ex:
@@ -392,6 +430,13 @@ def run(res, replay=None):
     res.cov["correspondence"]["htree_compared"] = "for every name of every indexed directory at the end of a sequence (incl. removed and re-created names whose hash is a leaf's lower bound): the leaf that holds the name vs the leaf the extracted dx_leaf reaches from the decoded index for the name's hash (hash by debugfs dx_hash)"
     res.add_obligation("block model = directory blocks after every link/unlink", not cbad)
     res.add_obligation("every name sits in the leaf the index search model reaches for its hash", not xbad)
+    hrows, hbad = hash_tie(src, seed, 25 if tier == "quick" else 400)
+    res.cov["correspondence"]["hash_rows"] = hrows
+    res.cov["correspondence"]["hash_mismatches"] = len(hbad)
+    res.add_obligation("the reader's directory hashes = ext2fs_dirhash2 (legacy, half_md4, tea; signed and unsigned)", not hbad)
+    for c in hbad[:1]:
+        res.violation("correspondence", {"hash": c, "note": "the check's own directory hash and the library's differ (the htree clause of the independent reader rests on it)"}, has_input=True,
+                      signature="c10hash:%s:%s" % (c.get("algorithm"), c.get("flags")))
     for recipe, problems in bad[:3]:
         res.violation("oracle", {"recipe": recipe, "problems": problems[:5]}, signature="c10:" + hashlib.sha256(json.dumps(recipe.get("ops", [])).encode()).hexdigest()[:12])
     for recipe, c in cbad[:2]:
